@@ -18,6 +18,24 @@ EXPLANATION = (
 GROW = ('push_back', 'emplace_back', 'insert', 'emplace', 'resize', 'reserve', 'assign')
 
 
+def _rule_layout_order(prog, chk):
+    """R12.10 — an object's field vector is sized from its class's layout, and the initialisers of every class of the chain write
+    at the offsets that class recorded: the layout of a base must be complete before a derived class copies it, or the object is
+    allocated with too few slots and the base's initialisers write past the end.  The rule is C10's R10.2 (base populated before
+    derived whatever the declaration order, also through a generic template in the middle of the chain)."""
+    from .C03 import _Sub
+    from . import C10 as _c10
+    chk.rule('R12.10', 'object slots: a class copies its base layout only after the base was populated (C10 R10.2), so field offsets stay inside the object')
+    sub = _Sub(chk)
+    _c10.run(prog, sub)
+    n = 0
+    for rule, fn, site, ok, detail, key in sub.obs:
+        if rule == 'R10.2':
+            n += 1
+            chk.ob('R12.10', fn, site, ok, 'layout order: ' + detail, key='layout:' + str(key))
+    chk.count('layout-order obligations (C10 R10.2)', n, 1)
+
+
 def run(prog, chk):
     R = Roles(prog)
     chk.rule('R12.1', 'value-dependent throwing library call is converted to a BlochError before it reaches the CLI')
@@ -135,6 +153,7 @@ def run(prog, chk):
     _rule_nullable_links(prog, chk, R)
     _rule_inplace_shrink(prog, chk, R, owners, dtor)
     _rule_slot_overwrite(prog, chk, R)
+    _rule_layout_order(prog, chk)
     dels = _deleter_lambdas(prog, R)
     chk.count('shared_ptr<Object> deleter lambdas', len(dels), 1)
     throwing = _may_throw_set(prog)
